@@ -17,6 +17,7 @@ import gc
 import hashlib
 import json
 import logging
+import os
 import shutil
 import tempfile
 from pathlib import Path
@@ -48,6 +49,7 @@ THEOREMS = [
     'IblVerif.C02.all_entries_same_recording',
     'IblVerif.C02.transparent_read',
     'IblVerif.C02.transparent_shape',
+    'IblVerif.C02.transparent_shape_any_meta',
     'IblVerif.C02.negative_step_empty_on_cbin',
     'IblVerif.C02.negative_step_counterexample',
     'IblVerif.C02.int_below_minus_n_counterexample',
@@ -70,6 +72,13 @@ RULE = ('(1) file-system sequences: recording = metadata flavour (nidq with 1..3
 ASSUMPTIONS = [
     'the content of x.bin may be REPLACED between calls (same ns/nc, other samples: an environment event `rewrite`), earlier outputs staying on disk; '
     'the "current content" of the recording is what the last rewrite - or the last successful decompress_file - put into x.bin',
+    'input forms (drawn independently of the values, tagged): path as pathlib.Path / str, absolute / relative to the cwd; keep_original and '
+    'scratch_dir positionally or by keyword; dtype of Reader spelled \'int16\' / np.int16 / \'<i2\' / np.dtype; file names with a UUID part '
+    '(the same UUID in all names everywhere; one UUID per dataset for the data-file entry points). Unsupported by the API and excluded: scratch_dir '
+    'given as str (AttributeError: str has no mkdir); other dtypes than int16 (another value, not another form). Known finding, excluded: '
+    'Reader(x.<uuid>.meta) when every dataset has its own UUID',
+    'the .meta may announce more or fewer samples than are on disk (whole frames); both readers must expose the frames on disk (Reader.open fudges '
+    'meta[fileTimeSecs]); reading ns back from fileTimeSecs relies on round(fl(fl(k/fs)*fs)) = k (C11)',
     'x.meta exists and is never touched; one chunk size per recording (compress_file is always called with the same chunk_duration)',
     'faults are exceptions: (a) raised inside mtscomp while chunk k is produced, (b) raised by the rename (compress_file) / shutil.move '
     '(decompress_to_scratch) that publishes the finished temporary file - injected by patching pathlib.Path.rename / shutil.move for that destination, '
@@ -142,6 +151,28 @@ FLAVOURS = {
     'NPultra': ('sampleNPultra_g0_t0.imec0.ap.meta', 'ap', 'rec_g0_t0.imec0.ap', 385),
 }
 NAMES = ['bin', 'cbin_tmp', 'cbin', 'ch', 'bin_temp', 'sbin', 'sbin_temp', 'smeta']
+# valid version-4 UUID strings (one.alf.spec.is_uuid_string), fixed so that runs are reproducible
+UUIDS = ['12345678-90ab-4def-9234-567890abcdef', '2468acf1-2157-4bde-a468-acf121579bde',
+         '369d0369-b203-49cd-b69d-0369b20369cd', '48d159e2-42af-47bc-88d1-59e242af37bc']
+PATH_FORMS = ['Path', 'str', 'rel_Path', 'rel_str']
+DTYPE_FORMS = [None, 'int16', 'np.int16', '<i2', 'np.dtype']
+
+
+def _path_form(p, form):
+    """The same file handed over as pathlib.Path / str, absolute / relative to the current directory."""
+    p = Path(p)
+    if form in ('rel_Path', 'rel_str'):
+        p = Path(os.path.relpath(p))
+    return str(p) if form in ('str', 'rel_str') else p
+
+
+def _dtype_form(form):
+    return {'int16': 'int16', 'np.int16': np.int16, '<i2': '<i2', 'np.dtype': np.dtype('int16')}[form]
+
+
+def _same_file(a, b):
+    return Path(a).resolve() == Path(b).resolve()
+
 
 
 def _meta_text(flavour, nc, ns):
@@ -175,9 +206,15 @@ class Rec:
         self.dir = Path(tempfile.mkdtemp(prefix='c02_'))
         self.scratch = self.dir / 'scratch'
         self.stem = FLAVOURS[p['flavour']][2]
+        self.meta_stem = self.stem
+        if p.get('uuid'):      # file names with a UUID part (as on SDSC): the same one everywhere, or one per dataset
+            self.stem = self.stem + '.' + UUIDS[0]
+            self.meta_stem = self.meta_stem + '.' + (UUIDS[0] if p['uuid'] == 'same' else UUIDS[3])
         self.nc, self.cs, self.sizes = p['nc'], p['cs'], list(p['sizes'])
         self.ns = sum(self.sizes)
-        txt, self.fs = _meta_text(p['flavour'], self.nc, self.ns)
+        # the metadata may announce MORE or FEWER samples than are on disk (interrupted acquisition / late flush)
+        self.meta_ns = max(1, self.ns + int(p.get('meta_delta', 0)))
+        txt, self.fs = _meta_text(p['flavour'], self.nc, self.meta_ns)
         self.chunk_duration = self.cs / self.fs
         assert int(np.round(self.chunk_duration * self.fs)) == self.cs
         self.bounds = np.r_[0, np.cumsum(self.sizes)].astype(int)
@@ -185,7 +222,7 @@ class Rec:
         v0 = self.ensure_version(0)
         self.D, self.raw_chunks, self.comp_chunks = v0['D'], v0['raw'], v0['comp']
         self.orig, self.ref_cbin, self.ref_ch = v0['bytes'], v0['cbin'], v0['ch']
-        (self.dir / (self.stem + '.meta')).write_text(txt)
+        (self.dir / (self.meta_stem + '.meta')).write_text(txt)
         self.meta_text = txt
 
     def ensure_version(self, v):
@@ -228,9 +265,10 @@ class Rec:
     def path(self, name):
         d = {'bin': self.dir / (self.stem + '.bin'), 'cbin_tmp': self.dir / (self.stem + '.cbin_tmp'),
              'cbin': self.dir / (self.stem + '.cbin'), 'ch': self.dir / (self.stem + '.ch'),
-             'bin_temp': self.dir / (self.stem + '.bin_temp'), 'meta': self.dir / (self.stem + '.meta'),
+             'bin_temp': self.dir / (self.stem + '.bin_temp'), 'meta': self.dir / (self.meta_stem + '.meta'),
              'sbin': self.scratch / (self.stem + '.bin'), 'sbin_temp': self.scratch / (self.stem + '.bin_temp'),
              'smeta': self.scratch / (self.stem + '.meta')}
+        # (decompress_to_scratch names the copied metadata after the DATA file: bin_file.with_suffix('.meta'))
         return d[name]
 
     def header_for(self, k, v=0):
@@ -500,12 +538,13 @@ class Engine:
         self.tdef = tdef
         self.readers = []
 
-    def open_entry(self, entry):
-        """spikeglx.Reader(path) -> (result string, reader or None)"""
+    def open_entry(self, entry, form='Path', dtype=None):
+        """spikeglx.Reader(path) -> (result string, reader or None); `form`: how the path is spelled, `dtype`: how int16 is spelled"""
         import spikeglx
-        path = self.rec.path({'bin': 'bin', 'cbin': 'cbin', 'meta': 'meta'}[entry])
+        path = _path_form(self.rec.path({'bin': 'bin', 'cbin': 'cbin', 'meta': 'meta'}[entry]), form)
+        kw = {'dtype': _dtype_form(dtype)} if dtype else {}
         try:
-            sr = spikeglx.Reader(path)
+            sr = spikeglx.Reader(path, **kw)
         except Exception as e:
             return _err_name(e), None
         if sr.file_bin is None:
@@ -531,23 +570,33 @@ class Engine:
             if kind == 'compress':
                 n_src = rec.n_chunks_of('bin')
                 with _inject('c', k, fired), _publish_fault(pf, rec, 'compress'):
-                    ret = sr.compress_file(keep_original=bool(op['keep']), chunk_duration=rec.chunk_duration, n_threads=T)
-                out = 'ok' if Path(ret) == rec.path('cbin') else f'ok(ret={Path(ret).name})'
+                    if op.get('pos'):     # keep_original passed positionally
+                        ret = sr.compress_file(bool(op['keep']), chunk_duration=rec.chunk_duration, n_threads=T)
+                    else:
+                        ret = sr.compress_file(keep_original=bool(op['keep']), chunk_duration=rec.chunk_duration, n_threads=T)
+                out = 'ok' if _same_file(ret, rec.path('cbin')) else f'ok(ret={Path(ret).name})'
             elif kind == 'decompress':
                 n_src = rec.n_chunks_of('cbin')
-                kw = dict(keep_original=bool(op['keep']), n_threads=T)
+                kw = dict(n_threads=T)
                 if op['overwrite']:
                     kw['overwrite'] = True
                 with _inject('d', k, fired):
-                    ret = sr.decompress_file(**kw)
-                out = 'ok' if Path(ret) == rec.path('bin') else f'ok(ret={Path(ret).name})'
+                    if op.get('pos'):
+                        ret = sr.decompress_file(bool(op['keep']), **kw)
+                    else:
+                        ret = sr.decompress_file(keep_original=bool(op['keep']), **kw)
+                out = 'ok' if _same_file(ret, rec.path('bin')) else f'ok(ret={Path(ret).name})'
             else:
                 n_src = rec.n_chunks_of('cbin')
                 T = self.tdef
                 with _default_threads(self.tdef), _inject('d', k, fired), _publish_fault('patch' if pf else None, rec, 'toscratch'):
-                    ret = sr.decompress_to_scratch(rec.scratch if op['scratch'] else None)
+                    sdir = _path_form(rec.scratch, 'rel_Path' if op.get('srel') else 'Path') if op['scratch'] else None
+                    if op.get('pos') and op['scratch']:
+                        ret = sr.decompress_to_scratch(sdir)
+                    else:
+                        ret = sr.decompress_to_scratch(scratch_dir=sdir)
                 want = rec.path('sbin') if op['scratch'] else rec.path('bin')
-                out = 'ok' if Path(ret) == want else f'ok(ret={Path(ret).name})'
+                out = 'ok' if _same_file(ret, want) else f'ok(ret={Path(ret).name})'
         except Exception as e:   # noqa
             out = _err_name(e)
         j = 'N' if (k is None or k >= n_src) else str((k // T) * T)
@@ -607,6 +656,10 @@ def _gen_op(rng, n, fb):
         op['T'] = int(rng.choice([1, 1, 2, 3]))
     else:
         op['scratch'] = bool(rng.random() < 0.5)
+    # call spelling: keep_original / scratch_dir positionally or by keyword; scratch directory relative to the cwd
+    op['pos'] = bool(rng.random() < 0.4)
+    if kind == 'toscratch':
+        op['srel'] = bool(rng.random() < 0.4)
     # the rename / move that publishes the result fails (mostly on calls with no chunk fault, where it is reached)
     if kind != 'decompress' and rng.random() < (0.3 if op['k'] is None else 0.05):
         op['pf'] = str(rng.choice(['patch', 'dir'])) if kind == 'compress' else 'patch'
@@ -636,13 +689,16 @@ def _run_fs_case_inner(case, rng, n_ops, hook):
     eng = Engine(case['rec'], case['init'], case['tdef'])
     rec = eng.rec
     out = []
+    cwd = os.getcwd()
+    os.chdir(rec.dir.parent)       # relative path forms are relative to the parent of the recording directory
     try:
         n = len(rec.sizes)
         out.append((f"init {n} {case['init']}", rec.state_string(), {'kind': 'init'}))
 
         def opens():
-            for e in ('bin', 'cbin', 'meta'):
-                res, sr = eng.open_entry(e)
+            for ei, e in enumerate(('bin', 'cbin', 'meta')):
+                state['opens'] += 1
+                res, sr = eng.open_entry(e, PATH_FORMS[(state['opens'] + ei) % 4], DTYPE_FORMS[(state['opens'] // 3) % 5])
                 recd = 'x'
                 if sr is not None and sr.file_bin is not None:
                     eng.readers.append(sr)
@@ -652,11 +708,11 @@ def _run_fs_case_inner(case, rng, n_ops, hook):
                     except Exception as ex:   # noqa
                         recd = '!' + type(ex).__name__
                 out.append((f'open {e}', f'{res} rec={recd}', {'kind': 'open', 'entry': e}))
+        state = {'rewrites': 0, 'opens': 0}
         opens()
         generate = rng is not None
         ops = [] if generate else case['ops']
         pool = []
-        state = {'rewrites': 0}
         i = 0
         while (generate and i < n_ops) or (not generate and i < len(ops)):
             if generate and rng.random() < 0.12:
@@ -672,6 +728,10 @@ def _run_fs_case_inner(case, rng, n_ops, hook):
                     fb_guess = who[4:]
                 op = _gen_op(rng, n, fb_guess)
                 op['reader'] = who
+                if who.startswith('new'):
+                    op['pform'] = str(rng.choice(PATH_FORMS))
+                    if rng.random() < 0.3:
+                        op['dform'] = str(rng.choice(DTYPE_FORMS[1:]))
                 ops.append(op)
             else:
                 op = ops[i]
@@ -690,7 +750,7 @@ def _run_fs_case_inner(case, rng, n_ops, hook):
                 continue
             how, what = op['reader'].split(':')
             if how == 'new':
-                res, sr = eng.open_entry(what)
+                res, sr = eng.open_entry(what, op.get('pform', 'Path'), op.get('dform'))
                 if sr is None or sr.file_bin is None:
                     # no reader to call on; the open itself was compared by `opens()`; record and continue
                     op['skipped'] = True
@@ -723,6 +783,7 @@ def _run_fs_case_inner(case, rng, n_ops, hook):
             case['ops'] = ops
         return out
     finally:
+        os.chdir(cwd)
         eng.close()
 
 
@@ -752,7 +813,10 @@ def _fs_cases(ctx, count):
     rng = ctx.rng
     cases = []
     for _ in range(count):
-        cases.append({'rec': _gen_recording(rng, small=True), 'init': str(rng.choice(['bin'] * 7 + ['cbin'] * 2 + ['both'])),
+        rp = _gen_recording(rng, small=True)
+        if rng.random() < 0.25:
+            rp['uuid'] = 'same'
+        cases.append({'rec': rp, 'init': str(rng.choice(['bin'] * 7 + ['cbin'] * 2 + ['both'])),
                       'tdef': int(rng.choice([1, 2, 3, 16])), 'n_ops': int(rng.integers(3, 9)),
                       'sub': int(rng.integers(0, 2 ** 31)), 'pool': 'real' if rng.random() < 0.12 else 'serial'})
     return cases
@@ -858,6 +922,13 @@ def correspondence_fs(ctx, count):
                     'init=' + case['init'], 'pool=' + case.get('pool', 'serial')]
             if info.get('box'):
                 tags.append('exhaustive_box')
+            tags.append('spelling=' + ('positional' if op.get('pos') else 'keyword'))
+            if op['reader'].startswith('new'):
+                tags.append('path=' + op.get('pform', 'Path'))
+                if op.get('dform'):
+                    tags.append('dtype=' + op['dform'])
+            if rp.get('uuid'):
+                tags.append('uuid_in_names=' + rp['uuid'])
             if op.get('pf'):
                 tags.append('publish_fault=' + ('fired' if info['outcome'] == 'err OSError' else 'not_reached'))
             if info.get('rewrites'):
@@ -977,33 +1048,58 @@ def _read_case(case, hook=None):
 
 
 def _read_case_inner(case, hook):
+    """The recording is written (its .meta possibly announcing more / fewer samples than are on disk), compressed by
+    compress_file, and opened `via` x.cbin beside x.bin / x.cbin alone / x.meta with only the x.cbin, the path spelled as
+    `form['path']`, int16 spelled as `form['dtype']`, names with a UUID part as `rec['uuid']`; the reference is the reader
+    of the .bin (a pristine copy in another directory when the .bin must be absent)."""
     import spikeglx
     rec = Rec(case['rec'])
+    form = case.get('form', {})
+    via = {'cbin': 'cbin_beside'}.get(case['via'], case['via'])
     out = []
     readers = []
+    cwd = os.getcwd()
+    os.chdir(rec.dir.parent)
     try:
         rec.init('bin')
         sb = spikeglx.Reader(rec.path('bin'))
         readers.append(sb)
-        sb.compress_file(keep_original=True, chunk_duration=rec.chunk_duration, n_threads=case.get('T', 1))
-        # a pristine copy of the binary elsewhere, so that the metadata entry point sees only the compressed file
-        other = rec.dir / 'orig'
-        other.mkdir()
-        shutil.copy(rec.path('bin'), other / rec.path('bin').name)
-        shutil.copy(rec.path('meta'), other / rec.path('meta').name)
-        if case['via'] == 'meta':
+        if form.get('keep_pos'):
+            sb.compress_file(True, chunk_duration=rec.chunk_duration, n_threads=case.get('T', 1))
+        else:
+            sb.compress_file(keep_original=True, chunk_duration=rec.chunk_duration, n_threads=case.get('T', 1))
+        p_cbin, p_ch, p_meta = rec.path('cbin'), rec.path('ch'), rec.path('meta')
+        if case['rec'].get('uuid') == 'diff':
+            # one UUID per dataset, as on SDSC: the compressed file and its header get their own
+            q = p_cbin.with_name(FLAVOURS[case['rec']['flavour']][2] + '.' + UUIDS[1] + '.cbin'); p_cbin.rename(q); p_cbin = q
+            q = p_ch.with_name(FLAVOURS[case['rec']['flavour']][2] + '.' + UUIDS[2] + '.ch'); p_ch.rename(q); p_ch = q
+        if via != 'cbin_beside':
+            # a pristine copy of the binary elsewhere, so that the entry point sees only the compressed file
+            other = rec.dir / 'orig'
+            other.mkdir()
+            shutil.copy(rec.path('bin'), other / rec.path('bin').name)
+            shutil.copy(p_meta, other / p_meta.name)
             sb.close()
             rec.path('bin').unlink()
             sb = spikeglx.Reader(other / rec.path('bin').name)
             readers.append(sb)
-            sc = spikeglx.Reader(rec.path('meta'))
-        else:
-            sc = spikeglx.Reader(rec.path('cbin'))
+        kw = {'dtype': _dtype_form(form['dtype'])} if form.get('dtype') else {}
+        sc = spikeglx.Reader(_path_form(p_meta if via == 'meta' else p_cbin, form.get('path', 'Path')), **kw)
         readers.append(sc)
+        batch = max(1, rec.cs - 3)
+
+        def batched(sr):
+            starts = list(range(0, sr.ns, batch))
+            parts = [sr[a:a + batch, :] for a in starts]
+            return len(starts), (np.concatenate(parts) if parts else np.zeros((0, rec.nc), np.float32))
         head = {'is_mtscomp': (bool(sc.is_mtscomp), bool(sb.is_mtscomp)), 'shape': (tuple(sc.shape), tuple(sb.shape)),
                 'ns': (sc.ns, sb.ns), 'nc': (sc.nc, sb.nc), 'fs': (sc.fs, sb.fs), 'rl': (sc.rl, sb.rl), 'nsync': (sc.nsync, sb.nsync),
-                'type': (sc.type, sb.type)}
+                'type': (sc.type, sb.type), 'fileTimeSecs': (sc.meta['fileTimeSecs'], sb.meta['fileTimeSecs']),
+                'batched_reads': (_digest(lambda: batched(sc)[1]) + f' in {batched(sc)[0]} batches',
+                                  _digest(lambda: batched(sb)[1]) + f' in {batched(sb)[0]} batches')}
         out.append((None, head, {'kind': 'head'}))
+        nbytes = (rec.dir / 'orig' / rec.path('bin').name if via != 'cbin_beside' else rec.path('bin')).stat().st_size
+        out.append((f'openns {rec.meta_ns} {2 * rec.nc} {nbytes} {rec.ns}', f'cbin={sc.ns} bin={sb.ns}', {'kind': 'ns'}))
         sizes = ','.join(map(str, rec.sizes))
         for nsel, csel, sync in case['sels']:
             pn, pc = _sel_to_py(nsel), _csel_to_py(csel)
@@ -1019,8 +1115,11 @@ def _read_case_inner(case, hook):
             out.append((line, raw, {'kind': 'sel', 'nsel': nsel, 'csel': csel, 'sync': sync, 'hi': hi}))
             if hook:
                 hook(rec, sc, sb, nsel, csel, sync)
+        if hook and not case['sels']:
+            hook(rec, sc, sb, None, None, False)
         return out
     finally:
+        os.chdir(cwd)
         for r in readers:
             try:
                 r.close()
@@ -1051,7 +1150,16 @@ def _read_cases(ctx, count, nsel_per):
         if len(rp['sizes']) == 1 and rng.random() < 0.7:
             rp['sizes'] = [rp['cs']] * int(rng.integers(1, 4)) + rp['sizes']
         sels = [(_gen_nsel(rng, rp), _gen_csel(rng, rp['nc']), bool(rng.random() < 0.15)) for _ in range(nsel_per)]
-        cases.append({'rec': rp, 'via': str(rng.choice(['cbin', 'cbin', 'meta'])), 'T': int(rng.choice([1, 2, 3])), 'sels': sels,
+        # the FORM of the call is drawn independently of the recording and the selectors
+        if rng.random() < 0.5:      # .meta announcing more / fewer samples than are on disk (whole frames)
+            d = int(rng.choice([1, 2, rp['cs'], rp['cs'] + 1, int(rng.integers(1, 3 * rp['cs']))]))
+            rp['meta_delta'] = d if rng.random() < 0.5 else -min(d, sum(rp['sizes']) - 1)
+        via = str(rng.choice(['cbin_beside', 'cbin_alone', 'meta']))
+        u = rng.random()
+        if u < 0.3:
+            rp['uuid'] = 'same' if (u < 0.15 or via == 'meta') else 'diff'   # (x.meta -> data with one UUID per dataset: known finding)
+        form = {'path': str(rng.choice(PATH_FORMS)), 'dtype': DTYPE_FORMS[int(rng.integers(0, 5))], 'keep_pos': bool(rng.random() < 0.5)}
+        cases.append({'rec': rp, 'via': via, 'T': int(rng.choice([1, 2, 3])), 'sels': sels, 'form': form,
                       'pool': 'real' if rng.random() < 0.12 else 'serial'})
     return cases
 
@@ -1060,16 +1168,23 @@ def correspondence_reads(ctx, count, nsel_per):
     lines, impl, meta = [], [], []
     for case in _read_cases(ctx, count, nsel_per):
         res = _read_case(case)
-        base = {'rec': case['rec'], 'via': case['via'], 'T': case['T'], 'pool': case['pool']}
+        base = {'rec': case['rec'], 'via': case['via'], 'T': case['T'], 'pool': case['pool'], 'form': case.get('form', {})}
+        ftags = ('via=' + case['via'], 'path=' + base['form'].get('path', 'Path'), 'dtype=' + str(base['form'].get('dtype')),
+                 'uuid_in_names=' + str(case['rec'].get('uuid')),
+                 'meta_announces=' + ('samples_on_disk' if not case['rec'].get('meta_delta') else 'more' if case['rec']['meta_delta'] > 0 else 'fewer'))
         for line, ans, info in res:
             if info['kind'] == 'head':
                 for k, (c, b) in ans.items():
-                    ctx.compare('attr', {'read': base, 'attr': k}, str(c), str(b) if k != 'is_mtscomp' else 'True', nontrivial=False,
-                                tags=('read:attr',))
+                    ctx.compare('attr', {'read': base, 'attr': k}, str(c), str(b) if k != 'is_mtscomp' else 'True',
+                                nontrivial=bool(case['rec'].get('meta_delta')), tags=('read:attr',) + (ftags if k == 'shape' else ()))
                 continue
             lines.append(line); impl.append(ans); meta.append((base, case['rec'], info))
     model = ctx.lean(lines)
     for line, a, m, (base, rp, info) in zip(lines, impl, model, meta):
+        if info['kind'] == 'ns':
+            ctx.compare('exposed-ns', {'read': base, 'what': 'Reader.ns of the .cbin reader and of the .bin reader'}, a, m,
+                        nontrivial=bool(rp.get('meta_delta')), tags=('read:ns',))
+            continue
         nsel, csel = info['nsel'], info['csel']
         span = _touches(nsel, rp)
         nontriv = span >= 2 or (nsel[0] == 's' and (nsel[3] or 1) > 1) or (nsel[0] == 'i' and nsel[1] < 0)
@@ -1289,7 +1404,7 @@ def oracle_fs(case):
     try:
         _run_fs_case(case, hook=hook)
     except Exception as e:   # noqa
-        return f'harness could not run the case: {type(e).__name__}: {e}'
+        return f'running the calls of this history raised outside a call under observation (opening a reader / reading): {type(e).__name__}: {e}'
     return viol[0] if viol else None
 
 
@@ -1317,8 +1432,17 @@ def oracle_reads(case):
             if not sc.is_mtscomp:
                 viol.append('the reader opened on the compressed recording is not reading the compressed file')
                 return
+            if (sc.ns, sc.rl, sc.meta['fileTimeSecs']) != (sb.ns, sb.rl, sb.meta['fileTimeSecs']):
+                viol.append(f'ns / rl / fileTimeSecs differ: compressed {(sc.ns, sc.rl, sc.meta["fileTimeSecs"])} vs original '
+                            f'{(sb.ns, sb.rl, sb.meta["fileTimeSecs"])}')
+                return
+            batch = max(1, rec.cs - 3)
+            nb_c, nb_b = len(range(0, sc.ns, batch)), len(range(0, sb.ns, batch))
+            if nb_c != nb_b:
+                viol.append(f'a loop over range(0, sr.ns, {batch}) makes {nb_c} reads on the compressed file and {nb_b} on the original')
+                return
             cache['full'] = sb.read(nsel=slice(None), csel=slice(None), sync=False)
-        if _excluded_nsel(nsel, rec.ns):
+        if nsel is None or _excluded_nsel(nsel, rec.ns):
             return
         pn, pc = _sel_to_py(nsel), _csel_to_py(csel)
         a, b = _digest(lambda: sc[pn, pc]), _digest(lambda: sb[pn, pc])
@@ -1335,7 +1459,8 @@ def oracle_reads(case):
     try:
         _read_case(case, hook=hook)
     except Exception as e:   # noqa
-        return f'harness could not run the case: {type(e).__name__}: {e}'
+        return (f'compressing the recording and opening it via {case["via"]} (path as {case.get("form", {}).get("path", "Path")}, dtype as '
+                f'{case.get("form", {}).get("dtype")}, uuid in names: {case["rec"].get("uuid")}) raised {type(e).__name__}: {e}')
     return viol[0] if viol else None
 
 
@@ -1551,7 +1676,25 @@ def known_findings(ctx):
                 r.close()
             rec.close()
 
-    return {'compress_rename_failure_next_to_stale_cbin_orphans_header': orphan_header,
+    def meta_uuid():
+        # SDSC-style names, one UUID per dataset: the data files find their .meta/.ch (glob in _get_companion_file), the .meta finds no data file
+        import spikeglx
+        _setup()
+        rec = Rec({'flavour': 'nidq', 'nc': 3, 'cs': 40, 'sizes': [40, 40, 20], 'seed': 1, 'uuid': 'diff'})
+        rs = []
+        try:
+            with _pool('serial'):
+                rec.init('bin')
+                sb = spikeglx.Reader(rec.path('bin')); rs.append(sb)
+                sm = spikeglx.Reader(rec.path('meta')); rs.append(sm)
+                return sb.meta is not None and tuple(sb.shape) == (100, 3) and sm.file_bin is None
+        finally:
+            for r in rs:
+                r.close()
+            rec.close()
+
+    return {'meta_entry_with_per_dataset_uuid_resolves_no_data_file': meta_uuid,
+            'compress_rename_failure_next_to_stale_cbin_orphans_header': orphan_header,
             'cbin_negative_step_sample_slice': neg_step,
             'cbin_int_sample_index_below_minus_ns_wraps': below_minus_ns,
             'cbin_numpy_integer_sample_index_empty': numpy_int}
